@@ -54,7 +54,13 @@ func baseWorld(r *rng) *world {
 	for i := 1; i <= 3; i++ {
 		id := fmt.Sprintf("%s/notes/%d", local, i)
 		n := jmap{"@context": asCtx, "type": "Note", "id": id, "content": fmt.Sprintf("note %d", i), "attributedTo": actorID(local, "alice")}
-		switch r.intn(4) {
+		switch r.intn(6) {
+		case 4: // ordered likes / unordered shares that exist but hold nothing yet
+			n["likes"] = jmap{"type": "OrderedCollection", "id": id + "/likes", "totalItems": float64(0)}
+			n["shares"] = jmap{"type": "Collection", "id": id + "/shares", "totalItems": float64(0)}
+		case 5:
+			n["likes"] = jmap{"type": "OrderedCollection", "id": id + "/likes"}
+			n["shares"] = jmap{"type": "OrderedCollection", "id": id + "/shares", "orderedItems": remote + "/shares/0"}
 		case 1:
 			n["likes"] = jmap{"type": "Collection", "id": id + "/likes", "items": remote + "/likes/0"}
 			n["shares"] = jmap{"type": "OrderedCollection", "id": id + "/shares"}
@@ -974,6 +980,12 @@ func genGet(r *rng, kind string, k int) *scenario {
 	alice := actorID(local, "alice")
 	sc := &scenario{Family: "get:" + kind, Cfg: cfg, World: w, Method: "GET", Accept: apContentType, Tags: map[string]bool{}}
 	sc.PreHeaders = k%3 == 1 // the application has already put headers of its own on the response
+	w.ClockNanos = []int64{0, 499999999, 500000000, 750000000, 999999999}[k%5] // the clock has a sub-second part: a Date drops it
+	defer func() {
+		if k%7 == 5 && !strings.Contains(sc.Path, "?") { // a query string is part of the id that is locked, read and unlocked
+			sc.Path += "?page=2&min_id=0"
+		}
+	}()
 	items := []interface{}{}
 	n := r.intn(12)
 	for i := 0; i < n; i++ {
@@ -1017,6 +1029,27 @@ func genGet(r *rng, kind string, k int) *scenario {
 				w.Store[id]["type"] = []interface{}{"Tombstone", "ext:Archived"}
 			}
 			sc.Path = "/tomb/1"
+		}
+		if k%10 == 4 || k%10 == 9 { // hidden recipients four to six object levels below the served value
+			id := local + "/activities/deep"
+			var v interface{} = jmap{"type": "Note", "id": local + "/notes/deepest", "content": "deep", "bto": actorID(remote, "carol"), "bcc": []interface{}{actorID(remote, "dave")}}
+			depth := 4 + k%3
+			for d := 0; d < depth; d++ {
+				ty := []string{"Offer", "Create", "Announce", "Undo", "Invite", "Add"}[d%6]
+				w0 := jmap{"type": ty, "id": fmt.Sprintf("%s/activities/deep-%d", local, d), "actor": alice, "object": v}
+				if d%2 == 1 {
+					w0["bcc"] = actorID(remote, "erin")
+				}
+				v = w0
+			}
+			top := v.(jmap)
+			top["@context"] = asCtx
+			top["id"] = id
+			top["to"] = public
+			w.Store[id] = top
+			sc.Path = "/activities/deep"
+			w.Clock = int64(r.intn(2000000000)) - 100000000
+			return sc
 		}
 		if k%5 == 2 { // embedded values without an id, and two embedded values under one id: each is stripped, at every depth
 			id := local + "/activities/idless"
